@@ -35,6 +35,49 @@ def plan(tier):
     return {"ncases": 24000, "nshards": 16, "budget_s": 1800, "floor": 1000000, "stall_s": 300}
 
 
+def form_transition(res, rng, free_text, fixed_text, name):
+    """the content of an open document is replaced by its twin in the other source form through one ranged change (a paste over the whole
+    text, not an end-of-file append): classification and outline must be those of a fresh load of the new content, in both directions"""
+    def outline_of(srv, uri):
+        r = srv.request("textDocument/documentSymbol", {"textDocument": {"uri": uri}})
+        return sorted((s_["name"].lower(), s_["kind"]) for s_ in r[2]) if r[0] == "resp" and isinstance(r[2], list) else None
+
+    def fresh(text):
+        ws, srv, ev = H.start({name: text}, args=["--incremental_sync"], nthreads=1)
+        try:
+            srv.did_open(ws.uri(name))
+            return getattr(srv.ls.workspace.get(ws.path(name)), "fixed", None), outline_of(srv, ws.uri(name))
+        finally:
+            ws.close()
+
+    want = {"free": fresh(free_text), "fixed": fresh(fixed_text)}
+    start = rng.choice(["free", "fixed"])
+    texts = {"free": free_text, "fixed": fixed_text}
+    ws, srv, ev = H.start({name: texts[start]}, args=["--incremental_sync"], nthreads=1)
+    try:
+        uri, path = ws.uri(name), ws.path(name)
+        srv.did_open(uri)
+        cur = start
+        for step in range(2):
+            nxt = "fixed" if cur == "free" else "free"
+            ls = srv.lines_of(path)
+            whole = {"start": {"line": 0, "character": 0}, "end": {"line": len(ls) - 1, "character": len(ls[-1])}}
+            srv.did_change(uri, [{"range": whole, "text": texts[nxt]}])
+            res.count("evaluations")
+            res.kind(f"transition:{cur}->{nxt}")
+            got = (getattr(srv.ls.workspace.get(path), "fixed", None), outline_of(srv, uri))
+            if "\n".join(srv.lines_of(path)) != texts[nxt].rstrip("\n") and "\n".join(srv.lines_of(path)) != texts[nxt]:
+                return  # buffer fidelity is C02's business
+            if got != want[nxt]:
+                res.violation(f"transition:{cur}-to-{nxt}:" + ("classification" if got[0] != want[nxt][0] else "outline"),
+                              f"after replacing the {cur}-form text of an open document by its {nxt}-form twin through one ranged change: fixed={got[0]}, {len(got[1] or [])} outline entries; "
+                              f"a fresh load of the same text gives fixed={want[nxt][0]}, {len(want[nxt][1] or [])} entries", {"name": name, "free": free_text, "fixed": fixed_text, "start": start})
+                return
+            cur = nxt
+    finally:
+        ws.close()
+
+
 def run_case(ctx, i, rng):
     res = Result()
     if i % 4 == 3:
@@ -59,6 +102,9 @@ def run_case(ctx, i, rng):
         fixed_files[f2] = lay.text("\n")
         lays[f] = (f2, lay)
         lexed[f] = lines
+    if not hostile and i % 2 == 0:
+        t0 = w.order[0]
+        form_transition(res, rng, free_files[t0], fixed_files[lays[t0][0]], "tr_" + os.path.basename(t0))
     for target in w.order:
         f2, lay = lays[target]
         ids = LY.idents(lexed[target])
